@@ -36,6 +36,7 @@ type c11MetaModel struct {
 	runtime  map[string]meta.ChannelRuntimeMeta
 	events   int
 	rejected int
+	rejKinds map[string]int
 }
 
 func c11NewMetaModel() *c11MetaModel {
@@ -72,9 +73,14 @@ func c11FillMeta(rng *rand.Rand, db *meta.DB, hashSlot uint16, nOps int, tag str
 	m := c11NewMetaModel()
 	ctx := context.Background()
 	s := db.ForHashSlot(hashSlot)
+	kind := ""
 	note := func(err error) bool {
 		if err != nil {
 			m.rejected++
+			if m.rejKinds == nil {
+				m.rejKinds = map[string]int{}
+			}
+			m.rejKinds[kind+": "+err.Error()]++
 			return false
 		}
 		return true
@@ -84,7 +90,9 @@ func c11FillMeta(rng *rand.Rand, db *meta.DB, hashSlot uint16, nOps int, tag str
 		cid := c11Str(rng, tag+"g", 6)
 		ctype := int64(1 + rng.IntN(3))
 		ck := fmt.Sprintf("%s/%d", cid, ctype)
-		switch rng.IntN(12) {
+		op := rng.IntN(12)
+		kind = fmt.Sprint("op", op)
+		switch op {
 		case 0, 1:
 			u := meta.User{UID: uid, Token: fmt.Sprintf("tok-%x", rng.Uint32()), DeviceFlag: int64(rng.IntN(3)), DeviceLevel: int64(rng.IntN(2))}
 			if note(s.UpsertUser(ctx, u)) {
@@ -156,7 +164,7 @@ func c11FillMeta(rng *rand.Rand, db *meta.DB, hashSlot uint16, nOps int, tag str
 				m.latest[ck] = l
 			}
 		case 9:
-			b := meta.PluginUserBinding{UID: uid, PluginNo: c11Str(rng, "p", 3), CreatedAtMS: int64(1 + rng.IntN(1<<30)), UpdatedAtMS: int64(1 + rng.IntN(1<<30))}
+			b := meta.PluginUserBinding{UID: uid, PluginNo: c11Str(rng, "p", 3), CreatedAtMS: int64(1 + rng.IntN(1<<20)), UpdatedAtMS: int64(1<<20 + rng.IntN(1<<30))}
 			if note(s.BindPluginUser(ctx, b)) {
 				m.plugins[uid+"|"+b.PluginNo] = b
 			}
@@ -171,7 +179,7 @@ func c11FillMeta(rng *rand.Rand, db *meta.DB, hashSlot uint16, nOps int, tag str
 			}
 		case 11:
 			ev := meta.MessageEventAppend{ChannelID: cid, ChannelType: ctype, ClientMsgNo: c11Str(rng, "no", 20), EventID: fmt.Sprintf("e%x", rng.Uint32()),
-				EventKey: c11Str(rng, "k", 3), EventType: "open", Visibility: "public", OccurredAt: int64(1 + rng.IntN(1<<30)), Payload: c11Bytes(rng, 32), UpdatedAt: int64(1 + rng.IntN(1<<30))}
+				EventKey: c11Str(rng, "k", 3), EventType: []string{meta.EventTypeStreamOpen, meta.EventTypeStreamDelta, meta.EventTypeStreamClose, meta.EventTypeStreamFinish}[rng.IntN(4)], Visibility: "", OccurredAt: int64(1 + rng.IntN(1<<30)), Payload: c11Bytes(rng, 32), UpdatedAt: int64(1 + rng.IntN(1<<30))}
 			if _, err := s.AppendMessageEvent(ctx, ev); note(err) {
 				m.events++
 			}
@@ -483,6 +491,9 @@ func c11MetaCase(r *verifkit.Run, rng *rand.Rand, ci int, dir string, nRandom in
 		models[h] = c11FillMeta(rng, src, h, nOps, fmt.Sprintf("s%d-", h))
 		r.Count("meta.source.rows", models[h].rows())
 		r.Count("meta.source.rejected_writes", models[h].rejected)
+		for k, n := range models[h].rejKinds {
+			r.Count("meta.source.rejected."+k, n)
+		}
 	}
 	tables := 0
 	m1 := models[h1]
